@@ -14,6 +14,10 @@
 //           S                      extend-from-secondaries
 //           R                      CoreState::reset
 //           Z                      TrackInitParams::reset_track_ids (Stepper::reseed)
+//           Y (dies k tag)*slots   like X, but the interaction of an alive slot asks the
+//                                  real secondary allocator for k secondaries (energy = tag)
+//                                  and a null pointer is a failed interaction (track
+//                                  untouched); prints an extra "A" line (C16 step-stack tie)
 //           G                      (observation only) print "G <case> <op> x..." = x of each slot's geometry state
 // stdout: "D <case> <op> <kind> ..." one line per op (see dump()); kind 8 =
 //         op skipped because an exception was not followed by R.
@@ -71,6 +75,84 @@ void scripted_interact(Problem& prob,
     }
 }
 
+struct Request
+{
+    int dies;
+    size_type count;
+    int tag;
+};
+
+// C16 step-stack tie: real pre-step (PreStepExecutor: thread 0 clears the
+// stack, spans of non-inactive slots cleared), then per alive slot an
+// interaction that allocates through PhysicsStepView::make_secondary_allocator
+// and stores the span with PhysicsStepView::secondaries; then dumps
+// "A <case> <op> size capacity (prestatus failed off+1 count)*slots storage..."
+void starved_step(Problem& prob,
+                  CoreState<MemSpace::host>& st,
+                  std::shared_ptr<CoreStepActionInterface const> const& a_pre,
+                  std::vector<Request> const& reqs,
+                  long caseno,
+                  size_type opi,
+                  std::ostream& os)
+{
+    auto const& params = *prob.core()->ptr<MemSpace::native>();
+    auto& ref = st.ref();
+    size_type n = st.size();
+    std::vector<int> prestatus(n), failed(n, 0);
+    for (size_type i = 0; i < n; ++i)
+        prestatus[i] = static_cast<int>(ref.sim.status[TrackSlotId{i}]);
+    a_pre->step(*prob.core(), st);
+    for (size_type i = 0; i < n; ++i)
+    {
+        CoreTrackView track(params, ref, TrackSlotId{i});
+        auto sim = track.make_sim_view();
+        if (sim.status() != TrackStatus::alive)
+            continue;
+        Request const& q = reqs[i];
+        auto phys_step = track.make_physics_step_view();
+        if (q.count > 0)
+        {
+            auto allocate = phys_step.make_secondary_allocator();
+            Secondary* a = allocate(q.count);
+            if (!a)
+            {
+                // Interaction::from_failure(): nothing is emitted, the
+                // track is left as it is
+                failed[i] = 1;
+                continue;
+            }
+            for (size_type k = 0; k < q.count; ++k)
+            {
+                a[k].particle_id = ParticleId(0);
+                a[k].energy = units::MevEnergy(q.tag);
+                a[k].direction = {1., 0., 0.};
+            }
+            phys_step.secondaries({a, q.count});
+        }
+        if (q.dies)
+            sim.status(TrackStatus::killed);
+    }
+    auto& stack = ref.physics.secondaries;
+    size_type cap = stack.storage.size();
+    Secondary const* base
+        = cap ? &stack.storage[ItemId<Secondary>{0}] : nullptr;
+    os << "A " << caseno << ' ' << opi << ' '
+       << stack.size[ItemId<size_type>{0}] << ' ' << cap;
+    for (size_type i = 0; i < n; ++i)
+    {
+        CoreTrackView track(params, ref, TrackSlotId{i});
+        auto sp = track.make_physics_step_view().secondaries();
+        os << ' ' << prestatus[i] << ' ' << failed[i] << ' '
+           << (sp.empty() ? 0 : (sp.data() - base) + 1) << ' ' << sp.size();
+    }
+    for (size_type i = 0; i < cap; ++i)
+        os << ' '
+           << static_cast<long>(
+                  value_as<units::MevEnergy>(
+                      stack.storage[ItemId<Secondary>{i}].energy));
+    os << '\n';
+}
+
 }  // namespace
 
 int main()
@@ -94,7 +176,22 @@ int main()
         if (!pp)
         {
             pp = std::make_unique<Problem>(cfg);
-            pp->core();
+            try
+            {
+                pp->core();
+            }
+            catch (RuntimeError const&)
+            {
+                // e.g. secondary_stack_factor = 0 (PhysicsParams.cc)
+                pp.reset();
+            }
+        }
+        if (!pp)
+        {
+            std::cout << "K " << caseno << " 0\n";
+            for (size_type opi = 0; opi < nops; ++opi)
+                std::getline(std::cin, line);
+            continue;
         }
         Problem& prob = *pp;
         auto core = prob.core();
@@ -102,7 +199,28 @@ int main()
         auto a_pre = prob.find("pre-step");
         auto a_cut = prob.find("tracking-cut");
         auto a_ext = prob.find("extend-from-secondaries");
-        CoreState<MemSpace::host> st(*core, StreamId{0}, n);
+        // the freshly constructed state ("F" line): CoreState constructor,
+        // TrackInitData.hh resize, SimData.hh resize
+        std::unique_ptr<CoreState<MemSpace::host>> stp;
+        try
+        {
+            stp = std::make_unique<CoreState<MemSpace::host>>(
+                *core, StreamId{0}, n);
+        }
+        catch (RuntimeError const&)
+        {
+            std::cout << "F " << caseno << " 0\n";
+            for (size_type opi = 0; opi < nops; ++opi)
+                std::getline(std::cin, line);
+            continue;
+        }
+        CoreState<MemSpace::host>& st = *stp;
+        dump_fresh(std::cout, caseno, st);
+        // secondary stack right after PhysicsData.hh resize: capacity, size
+        std::cout << "K " << caseno << " 1 "
+                  << st.ref().physics.secondaries.storage.size() << ' '
+                  << st.ref().physics.secondaries.size[ItemId<size_type>{0}]
+                  << '\n';
         size_type ninit_known = 0;
         bool poisoned = false;  // an exception was thrown and no reset yet
 
@@ -167,6 +285,14 @@ int main()
                         }
                         a_pre->step(*core, st);
                         scripted_interact(prob, st, outs);
+                        a_cut->step(*core, st);
+                        break;
+                    }
+                    case 'Y': {
+                        std::vector<Request> reqs(n);
+                        for (auto& q : reqs)
+                            is >> q.dies >> q.count >> q.tag;
+                        starved_step(prob, st, a_pre, reqs, caseno, opi, std::cout);
                         a_cut->step(*core, st);
                         break;
                     }
